@@ -142,4 +142,111 @@ namespace ref
       }
     return (xm * xm) / (a * a) + (ym * ym) / (b * b) + zterm;
   }
+
+  // ---------------------------------------------------------------- planar slab construction (statement of C06)
+  // Plane perpendicular to the trench through the foot point: x = horizontal offset from the trench towards the
+  // dip-point side, y = -(depth - min depth); the surface starts at (0,0) and follows, segment after segment, a
+  // straight line (equal dips) or a circular arc (dip varying linearly along the segment).
+  struct Seg { double L, a0, a1; }; // length, dip at the start and at the end (radians)
+  struct PlaneDist
+  {
+    double from = HUGE_VAL, along = HUGE_VAL; // signed distance (positive below the surface), distance along the surface
+    int segment = -1;
+    double frac = 0;        // fraction along the owning segment
+    double margin = HUGE_VAL; // how far (in metres along the surface) the foot is from the nearest segment end; second-best gap
+    double tie_gap = HUGE_VAL;
+  };
+  inline void lower_normal(double a, double &nx, double &ny) { nx = -std::sin(a); ny = -std::cos(a); }
+
+  inline PlaneDist planar_slab(const std::vector<Seg> &segs, double x, double y)
+  {
+    PlaneDist best;
+    double cx = 0, cy = 0, before = 0;
+    double second = HUGE_VAL;
+    for (size_t i = 0; i < segs.size(); ++i)
+      {
+        const Seg &s = segs[i];
+        double from = HUGE_VAL, along = HUGE_VAL, margin = 0;
+        bool owns = false;
+        double ex, ey; // end of the segment
+        if (s.a0 == s.a1)
+          {
+            const double dx = std::cos(s.a0), dy = -std::sin(s.a0);
+            const double rx = x - cx, ry = y - cy;
+            const double u = rx * dx + ry * dy;
+            owns = u >= 0 && u <= s.L;
+            from = -(dx * ry - dy * rx);
+            along = u;
+            margin = std::min(u, s.L - u);
+            ex = cx + s.L * dx; ey = cy + s.L * dy;
+          }
+        else
+          {
+            const double da = s.a1 - s.a0;
+            const double R = s.L / std::fabs(da);
+            double nx, ny;
+            lower_normal(s.a0, nx, ny);
+            const double sgn = da > 0 ? 1.0 : -1.0; // centre on the lower side if the dip increases
+            const double ox = cx + sgn * R * nx, oy = cy + sgn * R * ny;
+            const double vx = x - ox, vy = y - oy;
+            const double rho = std::sqrt(vx * vx + vy * vy);
+            // dip angle of the surface point that lies on the ray from the centre through the query point
+            const double a = da > 0 ? std::atan2(vx, vy) : std::atan2(-vx, -vy);
+            const double lo = std::min(s.a0, s.a1), hi = std::max(s.a0, s.a1);
+            owns = a >= lo && a <= hi && rho > 0;
+            from = da > 0 ? R - rho : rho - R;
+            along = R * std::fabs(a - s.a0);
+            margin = R * std::min(a - lo, hi - a);
+            double enx, eny;
+            lower_normal(s.a1, enx, eny);
+            ex = ox - sgn * R * enx; ey = oy - sgn * R * eny;
+          }
+        if (owns)
+          {
+            if (std::fabs(from) < std::fabs(best.from))
+              {
+                second = std::fabs(best.from);
+                best.from = from; best.along = before + along; best.segment = static_cast<int>(i); best.frac = along / s.L; best.margin = margin;
+              }
+            else second = std::min(second, std::fabs(from));
+          }
+        else if (margin > -1e-3 * s.L) best.tie_gap = std::min(best.tie_gap, std::fabs(margin)); // barely missed this segment
+        cx = ex; cy = ey; before += s.L;
+      }
+    if (best.segment >= 0) best.tie_gap = std::min(best.tie_gap, second - std::fabs(best.from));
+    return best;
+  }
+
+  // forward map: point of the plane at distance `along` down the surface and signed normal offset `from`
+  inline void planar_slab_point(const std::vector<Seg> &segs, double along, double from, double &x, double &y)
+  {
+    double cx = 0, cy = 0;
+    for (size_t i = 0; i < segs.size(); ++i)
+      {
+        const Seg &s = segs[i];
+        const bool last = i + 1 == segs.size();
+        const double u = (along <= s.L || last) ? along : s.L;
+        double px, py, a;
+        if (s.a0 == s.a1) { a = s.a0; px = cx + u * std::cos(a); py = cy - u * std::sin(a); }
+        else
+          {
+            const double da = s.a1 - s.a0, R = s.L / std::fabs(da), sgn = da > 0 ? 1.0 : -1.0;
+            double nx, ny;
+            lower_normal(s.a0, nx, ny);
+            const double ox = cx + sgn * R * nx, oy = cy + sgn * R * ny;
+            a = s.a0 + da * (u / s.L);
+            double mx, my;
+            lower_normal(a, mx, my);
+            px = ox - sgn * R * mx; py = oy - sgn * R * my;
+          }
+        if (along <= s.L || last)
+          {
+            double nx, ny;
+            lower_normal(a, nx, ny);
+            x = px + from * nx; y = py + from * ny;
+            return;
+          }
+        cx = px; cy = py; along -= s.L;
+      }
+  }
 } // namespace ref
